@@ -186,13 +186,13 @@ ALL_SCENARIOS = [Scn('setup', 'fresh', b) for b in BACKENDS] + \
      # every kind of state file meson writes at configure time
      Scn('setup', 'freshr', 'ninja'), Scn('reconfigure', 'r2', 'ninja'), Scn('configure', 'r2', 'ninja'),
      Scn('wipe', 'r1', 'ninja'), Scn('reconfigure', 'r2', 'ninja', 'postconf')]
-QUICK_SCENARIOS = [Scn('setup', 'freshn', 'ninja'), Scn('wipe', 'n2', 'none'), Scn('configure', 'x1', 'none'),
+QUICK_SCENARIOS = [Scn('setup', 'freshn', 'ninja'), Scn('wipe', 'n2', 'none'),
                    Scn('reconfigure', 'n2', 'ninja'), Scn('reconfigure', 'e2', 'ninja', 'noninja'),
-                   Scn('reconfigure', 'e2', 'none', 'postconf'), Scn('configure', 'e2', 'none', 'invalid'),
+                   Scn('configure', 'e2', 'none', 'invalid'), Scn('configure', 'n2', 'none'),
                    Scn('setup', 'freshr', 'ninja'), Scn('reconfigure', 'r2', 'ninja')]
 # scenarios on the rich project are long: the quick tier kills them at every writer kind and every state file
 # effect, and samples the rest sparsely
-SPARSE_IN_QUICK = 12
+SPARSE_IN_QUICK = 20
 
 
 def meson_argv(cmd: str, args: T.List[str], bd: str, backend: str, proj: str = PROJ) -> T.List[str]:
@@ -982,7 +982,7 @@ def choose_points(ctx: Ctx, raw: T.List[Raw], extra: T.Iterable[T.Tuple[int, str
     """(raw index, mode): 'b' = killed right before raw effect k, 't' = killed inside it"""
     effs, start = coalesce(raw)
     pts: T.Set[T.Tuple[int, str]] = set(extra)
-    stride = 1 if ctx.deep else (SPARSE_IN_QUICK if sparse else 4)
+    stride = (3 if sparse else 1) if ctx.deep else (SPARSE_IN_QUICK if sparse else 5)
     off = ctx.rng.randrange(stride)
     n = len(raw)
     seen_kinds: T.Set[str] = set()
@@ -996,7 +996,7 @@ def choose_points(ctx: Ctx, raw: T.List[Raw], extra: T.Iterable[T.Tuple[int, str
                 pts.add((s + 1, 'b'))
         end = (start[ci + 1] if ci + 1 < len(start) else n) - 1
         critical = e[1] in FIXED_IDS or (e[0] in ('replace', 'rename', 'copyfile') and e[2] in FIXED_IDS)
-        if ctx.deep or critical or ci % stride == off:
+        if (ctx.deep and not sparse) or critical or ci % stride == off:
             pts.add((s, 'b'))
         if e[0] == 'write':
             if e[1] in INPLACE_CRITICAL:
@@ -1005,7 +1005,7 @@ def choose_points(ctx: Ctx, raw: T.List[Raw], extra: T.Iterable[T.Tuple[int, str
                     pts.add((j, 'b'))
                     if ctx.deep or j in (s, (s + end) // 2, end):
                         pts.add((j, 't'))
-            elif ctx.deep or critical:
+            elif (ctx.deep and (not sparse or ci % stride == off)) or critical:
                 for j in sorted({s, (s + end) // 2, end}):
                     pts.add((j, 't'))
                 pts.add(((s + end) // 2, 'b'))
@@ -1349,7 +1349,7 @@ def run_scenarios(ctx: Ctx, scenarios: T.List[Scn]) -> None:
         bad = model_bad_points(ctx, rec)
         if not ctx.deep and len(bad) > 16:
             # quick tier: first, last and every 4th of the points the model calls unrecoverable
-            bad = [b for i, b in enumerate(bad) if i % 4 == 0 or i == len(bad) - 1]
+            bad = [b for i, b in enumerate(bad) if i % 6 == 0 or i == len(bad) - 1]
         pts = choose_points(ctx, rec['raw'], bad, sparse=sc.hist in RICH_HISTS)
         wset = scn_wset(rec)
         ctx.tag('crash-points:' + sc.name, len(pts))
